@@ -123,7 +123,7 @@ def run_stage(ctx, prefixes, plan, nontrivial_fn=None, procs=16):
     trace = merge(ctx, traces, "cluster-trace.ndjson")
     stats = account(ctx, trace, nontrivial_fn)
     ctx.stage("cluster-real-runs", plan=plan, **stats)
-    vlib.validate_traces(ctx, MODULE, trace, invariants(prefixes), tuple(prefixes), timeout=3000, heap="12g", sig_detail=sig_detail)
+    vlib.validate_traces_parallel(ctx, MODULE, trace, invariants(prefixes), tuple(prefixes), chunks=8, timeout=3000, heap="12g", sig_detail=sig_detail)
     return stats
 
 
